@@ -93,9 +93,13 @@ class Finders:
     if gfa_line.record_type == "L":
       previous = self._search_link(gfa_line.oriented_from,
                                    gfa_line.oriented_to, gfa_line.alignment)
-      if previous is None:
+      if previous is None or previous.virtual:
         # the ID tag of links is in the same namespace as the other names
-        previous = self.line(gfa_line.name)
+        # (a placeholder link has no ID: the line may take its place, unless
+        # its ID is in use)
+        by_name = self.line(gfa_line.name)
+        if by_name is not None:
+          previous = by_name
       return previous
     elif gfa_line.record_type in self.RECORDS_WITH_NAME and \
         gfa_line.__class__.NAME_FIELD is not None:
